@@ -13,6 +13,9 @@ var (
 	jsScopeType    = reflect.TypeOf(js.Scope{})
 	jsScopePtrType = reflect.TypeOf(&js.Scope{})
 	jsVarPtrType   = reflect.TypeOf(&js.Var{})
+	jsLiteralType  = reflect.TypeOf(js.LiteralExpr{})
+	// wrappers that Walk passes over: it enters what they hold (ClassElement: its Method or its Field)
+	jsWrapperTypes = map[reflect.Type]bool{reflect.TypeOf(js.ClassElement{}): true}
 	jsGroupPtrType = reflect.TypeOf(&js.GroupExpr{})
 )
 
@@ -80,9 +83,15 @@ type jsPos struct {
 	parent int
 }
 
-func jsTreePositions(ast *js.AST) []jsPos {
+func jsTreePositions(ast *js.AST) []jsPos { return jsTreePositionsOpt(ast, false) }
+
+// jsTreePositionsOpt: with subStructs, the addressable structures inside the tree whose pointer type is a node
+// (Element, Property, PropertyName, Params, BindingElement, Args/Arg, CaseClause, ClassElement, Field, Alias, …) are
+// positions too; LiteralExpr (embedded by value in names) and zero-sized structs are not.
+func jsTreePositionsOpt(ast *js.AST, subStructs bool) []jsPos {
 	var out []jsPos
 	var walk func(v reflect.Value, parent int, depth int)
+	fromSlice := false
 	iNode := reflect.TypeOf((*js.INode)(nil)).Elem()
 	add := func(node any, parent int) int {
 		out = append(out, jsPos{node, parent})
@@ -124,6 +133,15 @@ func jsTreePositions(ast *js.AST) []jsPos {
 			if v.Type() == jsScopeType {
 				return
 			}
+			elem := fromSlice
+			fromSlice = false
+			// a zero struct held in a field is an absent part (the Field of a ClassElement that is a method, the name of …); a
+			// zero element of a list is present (the hole of [1,,2])
+			if subStructs && v.CanAddr() && v.Type().Size() > 0 && v.Type() != jsLiteralType && !jsWrapperTypes[v.Type()] && (elem || !v.IsZero()) && reflect.PtrTo(v.Type()).Implements(iNode) {
+				if n := len(out); n == 0 || ptrKey(out[n-1].node) != ptrKey(v.Addr().Interface()) { // not the struct a pointer position was just added for
+					parent = add(v.Addr().Interface(), parent)
+				}
+			}
 			for i := 0; i < v.NumField(); i++ {
 				if v.Type().Field(i).PkgPath != "" {
 					continue
@@ -135,7 +153,9 @@ func jsTreePositions(ast *js.AST) []jsPos {
 				return
 			}
 			for i := 0; i < v.Len(); i++ {
+				fromSlice = v.Index(i).Kind() == reflect.Struct
 				walk(v.Index(i), parent, depth+1)
+				fromSlice = false
 			}
 		}
 	}
